@@ -63,6 +63,9 @@ type omodel struct {
 	list  []emodel
 	names []emodel // keys (scalars), distinct by canon
 	vals  []emodel
+	// rowable: only field-name keys and non-empty packable scalar values, so the
+	// value can also exist as a record that is still backed by a database row
+	rowable bool
 }
 
 type emodel struct {
@@ -108,6 +111,7 @@ type item struct {
 	hashNums   map[string]bool // hash relevant position -> "is a SuDnum" for integers outside int16
 	keyNums    map[string]bool // path of a named key (any depth) -> "is a SuDnum" for integers outside int16
 	isRec      bool
+	rowStates  []string // states of row backed records inside (lazy / touched / unpacked)
 }
 
 func outsideInt16(m gen.MV) bool {
@@ -123,6 +127,9 @@ func renderScalar(t *rapid.T, m *smodel) item {
 // renderObj builds a container from the model: members are inserted in a drawn
 // order and every scalar in a drawn representation.
 func renderObj(t *rapid.T, o *omodel, path string, top *item) core.Value {
+	if o.rowable && gen.Chance(t, "rowbacked", 60) {
+		return renderRowRecord(t, o, path, top)
+	}
 	isRec := gen.Chance(t, "isrec", 33)
 	var ob interface {
 		core.Value
@@ -167,6 +174,60 @@ func renderObj(t *rapid.T, o *omodel, path string, top *item) core.Value {
 	return ob
 }
 
+// renderRowRecord builds the record the way a query result is built: a packed
+// Record under a Header, wrapped by SuRecordFromRow. The fields stay packed in
+// the row until something unpacks them; the drawn state says how far that went.
+func renderRowRecord(t *rapid.T, o *omodel, path string, top *item) core.Value {
+	perm := rapid.Permutation(seq(len(o.names))).Draw(t, "fieldorder")
+	var b core.RecordBuilder
+	fields := make([]string, 0, len(perm))
+	for _, i := range perm {
+		fields = append(fields, o.names[i].s.canon[1:]) // canon is "S" + name
+		b.Add(o.vals[i].s.render(t).V.(core.Packable))
+		if path == "" {
+			top.namedOrder = append(top.namedOrder, o.names[i].canon())
+		}
+	}
+	hdr := core.NewHeader([][]string{fields}, fields)
+	r := core.SuRecordFromRow(core.Row{core.DbRec{Record: b.Build()}}, hdr, "", nil)
+	state := gen.Pick(t, "rowstate", []string{"lazy", "lazy", "touched", "unpacked"})
+	switch state {
+	case "touched":
+		r.Get(nil, core.SuStr(fields[gen.Uniform(t, "touch", len(fields))]))
+	case "unpacked":
+		r.ToObject()
+	}
+	top.rowStates = append(top.rowStates, state)
+	if path == "" {
+		top.isRec = true
+		top.nnamed = len(o.names)
+	}
+	return r
+}
+
+// genRowRecModel: 1..5 fields with non-empty scalar values
+func genRowRecModel(t *rapid.T) *omodel {
+	o := &omodel{rowable: true}
+	seen := map[string]bool{}
+	for i := 1 + gen.Uniform(t, "nfields", 5); i > 0; i-- {
+		k := smStr(rapid.StringMatching(`[a-d]{1,2}`).Draw(t, "field"))
+		if seen[k.canon] {
+			continue
+		}
+		seen[k.canon] = true
+		var v *smodel
+		for {
+			v = genScalarModel(t)
+			if v.canon != "S" {
+				break // an empty string in a row is a missing field
+			}
+		}
+		o.names = append(o.names, emodel{s: &k})
+		o.vals = append(o.vals, emodel{s: v})
+	}
+	return o
+}
+
 func seq(n int) []int {
 	s := make([]int, n)
 	for i := range s {
@@ -181,7 +242,12 @@ func renderItem(t *rapid.T, e emodel) item {
 	}
 	it := item{kind: gen.KObj, canon: e.o.canon(), hashNums: map[string]bool{}, keyNums: map[string]bool{}}
 	it.v = renderObj(t, e.o, "", &it)
-	it.desc = fmt.Sprintf("%T%s order%v", it.v, it.v.String(), it.namedOrder)
+	if len(it.rowStates) > 0 {
+		// String() would unpack the row: describe by the model
+		it.desc = fmt.Sprintf("%T%s rowbacked%v order%v", it.v, it.canon, it.rowStates, it.namedOrder)
+	} else {
+		it.desc = fmt.Sprintf("%T%s order%v", it.v, it.v.String(), it.namedOrder)
+	}
 	return it
 }
 
@@ -428,7 +494,7 @@ func genConcatFamily(t *rapid.T) []smodel {
 
 // genPool returns models (as emodel) for one case.
 func genPool(t *rapid.T) ([]emodel, string) {
-	theme := gen.Pick(t, "theme", []string{"numbers", "strings", "dates", "objects", "objects", "mixed", "mixed", "concat_family"})
+	theme := gen.Pick(t, "theme", []string{"numbers", "strings", "dates", "objects", "objects", "mixed", "mixed", "concat_family", "row_record"})
 	var ms []emodel
 	addS := func(f []smodel) {
 		for i := range f {
@@ -442,6 +508,28 @@ func genPool(t *rapid.T) ([]emodel, string) {
 		addS(genStrFamily(t))
 	case "dates":
 		addS(genDateFamily(t))
+	case "row_record":
+		// a record as a query returns it (fields still packed in the row), bare or
+		// nested as list member / named value of a container, next to the same
+		// value built as plain SuRecord / SuObject and to a variant
+		rm := genRowRecModel(t)
+		variant := mutateObjModel(t, rm)
+		variant.rowable = false
+		wrap := gen.Uniform(t, "rwrap", 4)
+		for _, m := range []*omodel{rm, rm, variant} {
+			switch wrap {
+			case 0:
+				ms = append(ms, emodel{o: m})
+			case 1:
+				ms = append(ms, emodel{o: &omodel{list: []emodel{{o: m}}}})
+			case 2:
+				one := smInt(1)
+				ms = append(ms, emodel{o: &omodel{list: []emodel{{s: &one}, {o: m}}}})
+			default:
+				k := smStr("r")
+				ms = append(ms, emodel{o: &omodel{names: []emodel{{s: &k}}, vals: []emodel{{o: m}}}})
+			}
+		}
 	case "concat_family":
 		fam := genConcatFamily(t)
 		switch gen.Uniform(t, "wrap", 4) {
@@ -562,6 +650,11 @@ func TestC28(t *testing.T) {
 			}
 		}
 		tr := [3]item{pick(t, pool, "a"), pick(t, pool, "b"), pick(t, pool, "c")}
+		// hashes first: Compare and Equal may unpack lazily built values
+		var h0 [3]uint64
+		for i := range tr {
+			h0[i] = tr[i].v.Hash()
+		}
 		var cmp [3][3]int
 		anyKnown := false
 		for i := 0; i < 3; i++ {
@@ -613,6 +706,12 @@ func TestC28(t *testing.T) {
 					if hx, hy := x.v.Hash(), y.v.Hash(); hx != hy && !skip {
 						t.Fatalf("Equal(%s, %s) but Hash %x != %x", x.desc, y.desc, hx, hy)
 					}
+					if h0[i] != h0[j] && !skip {
+						t.Fatalf("Equal(%s, %s) but Hash before any comparison %x != %x", x.desc, y.desc, h0[i], h0[j])
+					}
+					if i == j && h0[i] != x.v.Hash() {
+						t.Fatalf("Hash of %s changed by comparing it: %x -> %x", x.desc, h0[i], x.v.Hash())
+					}
 				}
 				// independent order of scalars of one kind
 				if x.kind == y.kind && x.kind != gen.KObj {
@@ -651,6 +750,9 @@ func TestC28(t *testing.T) {
 		rec.LabelIf(!anyKnown, "transitivity_checked")
 		for i := 0; i < 3; i++ {
 			if tr[i].kind == gen.KObj {
+				for _, st := range tr[i].rowStates {
+					rec.Label("render_row_backed_record_" + st)
+				}
 				rec.LabelIf(tr[i].isRec, "render_SuRecord")
 				rec.LabelIf(!tr[i].isRec, "render_SuObject")
 			} else {
@@ -680,7 +782,19 @@ func TestC28(t *testing.T) {
 		}
 		// the key
 		var km emodel
-		switch gen.Uniform(t, "kcls", 6) {
+		switch gen.Uniform(t, "kcls", 7) {
+		case 6: // a row backed record, or a container holding one, as key
+			rm := genRowRecModel(t)
+			switch gen.Uniform(t, "rwrap", 3) {
+			case 0:
+				km = emodel{o: rm}
+			case 1:
+				km = emodel{o: &omodel{list: []emodel{{o: rm}}}}
+			default:
+				k := smStr("r")
+				km = emodel{o: &omodel{names: []emodel{{s: &k}}, vals: []emodel{{o: rm}}}}
+			}
+			rec.Label("lookup_row_record_key")
 		case 5: // a concatenation value (or a container holding one) as key
 			fam := genConcatFamily(t)
 			m := pick(t, fam, "cf")
@@ -732,6 +846,11 @@ func TestC28(t *testing.T) {
 			v, perr, _ = c.call("function(ob,k){ ob.Member?(k) }", ob, k2.v)
 			if perr != nil || v != core.True {
 				t.Fatalf("member stored under %s: ob.Member?(%s) = %v %v", k1.desc, k2.desc, v, errText(perr))
+			}
+			// ... and still under the rendering it was stored with (the lookups above
+			// compared it, which may have unpacked lazily built parts)
+			if got := ob.GetIfPresent(nil, k1.v); got != core.Value(marker) {
+				t.Fatalf("member stored under %s is no longer found under that same value after lookups with %s (GetIfPresent = %v)", k1.desc, k2.desc, got)
 			}
 			diff := k1.desc != k2.desc
 			rec.Case(diff, "lookup "+k1.desc+"|"+k2.desc)
